@@ -41,7 +41,7 @@ def with_restarts(rng, inst, kinds=("soft", "hard", "hardnew")):
     inst["maxunsucc"] = _pick(rng, [0, 1, 2, 3])
     inst["rhoend_scale"] = _pick(rng, [1.0, 0.5, 0.1])
     n = inst["n"]
-    if rng.random() < 0.35 and n >= 2 and not inst.get("proj"):
+    if rng.random() < 0.35 and n >= 2 and not inst.get("proj") and not inst.get("growing"):
         npt = {"n+1": n + 1, "2n+1": 2 * n + 1, "mid": n + 1 + max(1, n // 2), "n+2": n + 2}.get(inst.get("npt", "n+1"), n + 1)
         room = (n + 1) * (n + 2) // 2 - npt
         if room >= 1:
@@ -124,6 +124,11 @@ def proj_inst(rng, iid):
     if rng.random() < 0.4:
         with_restarts(rng, inst)
         inst.pop("incnpt", None)
+    if rng.random() < 0.3:
+        up = {"regression.num_extra_steps": int(_pick(rng, [1, 2]))}
+        if rng.random() < 0.6:
+            up["regression.momentum_extra_steps"] = True
+        inst["user_params"] = up
     inst["rhoend"] = float(_pick(rng, [1e-2, 1e-4]))
     inst["maxfun"] = int(_pick(rng, [15, 40, 80]))
     inst["timeout"] = 120.0
